@@ -1,6 +1,7 @@
 // C17 (software share) -- crate::hazmat::* on the aes_force_soft builds (feature hazmat): the public functions dispatch
 // straight to crate::soft::fixslice::hazmat (64-bit or 32-bit file, normal or compact form).
-//   single-block forms: D, real S-box circuits, block and round key fully symbolic, vs the FIPS-197 round functions;
+//   single-block forms: D, real S-box circuits, block and round key fully symbolic, vs the FIPS-197 round functions
+//   (InvMixColumns / the column mixes through the byte forms imc_ks / mc_ks, tied to the FIPS matrices by fx_*_model);
 //   8-block forms: W -- sub_bytes / inv_sub_bytes replaced by bitslice o bytewise uf o inv_bitslice on ALL lanes (leaf lemmas
 //   fx_sub_bytes / fx_inv_sub_bytes), the oracle round gets the same uf; every output block i is compared with the FIPS
 //   round of input block i under round key i, which (with the D results) is "eight independent single calls".
@@ -38,7 +39,7 @@ verif_harness! {
         Some(b.0 == ra::xor(&ra::round_core(&blk), &key))
     }
 }
-//@ harness name=hz_equiv_inv_cipher_round prop=C17,C20 tier=quick bits=256 est=150 desc="D: hazmat::equiv_inv_cipher_round(b, k) == InvMixColumns(InvShiftRows(InvSubBytes(b))) XOR k; all blocks x all round keys; real inverse S-box circuit"
+//@ harness name=hz_equiv_inv_cipher_round prop=C17,C20 tier=quick bits=256 est=150 desc="D: hazmat::equiv_inv_cipher_round(b, k) == InvMixColumns(InvShiftRows(InvSubBytes(b))) XOR k; all blocks x all round keys; real inverse S-box circuit vs the generated inverse S-box table; InvMixColumns of the oracle in the byte form imc_ks(., 0), proved equal to the FIPS-197 matrix by fx_imc_model (the direct comparison with the 0e/0b/0d/09 matrix is a wide-parity equivalence that does not finish)"
 verif_harness! {
     name: hz_equiv_inv_cipher_round,
     bytes: 32,
@@ -48,10 +49,10 @@ verif_harness! {
         let key: [u8; 16] = take(inp, 16);
         let mut b: hz::Block = blk.into();
         hz::equiv_inv_cipher_round(&mut b, &key.into());
-        Some(b.0 == ra::xor(&ra::inv_round_core(&blk), &key))
+        Some(b.0 == ra::xor(&fx::o_imc(&ra::inv_shift_rows(&ra::sub_bytes_with(&blk, &ra::inv_sbox))), &key))
     }
 }
-//@ harness name=hz_mix_columns prop=C17,C20 tier=quick bits=128 est=30 desc="D: hazmat::mix_columns == FIPS MixColumns, hazmat::inv_mix_columns == FIPS InvMixColumns, and they are mutual inverses (both orders); all 2^128 blocks"
+//@ harness name=hz_mix_columns prop=C17,C20 tier=quick bits=128 est=60 desc="D: hazmat::mix_columns(b) == mc_ks(b, 0) and hazmat::inv_mix_columns(b) == imc_ks(b, 0) (structure-aligned byte forms; == FIPS MixColumns / InvMixColumns by fx_mc_model / fx_imc_model); all 2^128 blocks"
 verif_harness! {
     name: hz_mix_columns,
     bytes: 16,
@@ -60,14 +61,29 @@ verif_harness! {
         let blk: [u8; 16] = *inp;
         let mut m: hz::Block = blk.into();
         hz::mix_columns(&mut m);
-        vcheck!(m.0 == ra::mix_columns(&blk));
+        vcheck!(m.0 == fx::mc_ks(&blk, 0));
         let mut i: hz::Block = blk.into();
         hz::inv_mix_columns(&mut i);
-        vcheck!(i.0 == ra::inv_mix_columns(&blk));
-        hz::inv_mix_columns(&mut m);
-        vcheck!(m.0 == blk);
-        hz::mix_columns(&mut i);
-        Some(i.0 == blk)
+        Some(i.0 == fx::imc_ks(&blk, 0))
+    }
+}
+//@ harness name=hz_mix_inverse prop=C17 tier=quick bits=268 est=120 desc="oracle lemma, FIPS MixColumns M and InvMixColumns I are mutual inverses: (a) M(x^y) == M(x)^M(y) and I(x^y) == I(x)^I(y) for all 2^128 x 2^128 pairs, (b) I(M(e)) == e and M(I(e)) == e for every state e with a single non-zero byte (position and value symbolic); every state is the XOR of its 16 single-byte components, so (a)+(b) give I o M == M o I == id (the direct 128-bit composition query is a wide-parity equivalence that does not finish in 900 s).  With hz_mix_columns + fx_mc_model + fx_imc_model: hazmat::mix_columns / inv_mix_columns are the FIPS column mixes and mutual inverses"
+verif_harness! {
+    name: hz_mix_inverse,
+    bytes: 34,
+    unwind: 70,
+    prop: |inp| {
+        let x: [u8; 16] = take(inp, 0);
+        let y: [u8; 16] = take(inp, 16);
+        let xy = ra::xor(&x, &y);
+        vcheck!(ra::mix_columns(&xy) == ra::xor(&ra::mix_columns(&x), &ra::mix_columns(&y)));
+        vcheck!(ra::inv_mix_columns(&xy) == ra::xor(&ra::inv_mix_columns(&x), &ra::inv_mix_columns(&y)));
+        let j = inp[32] as usize;
+        vassume!(j < 16);
+        let mut e = [0u8; 16];
+        e[j] = inp[33];
+        vcheck!(ra::inv_mix_columns(&ra::mix_columns(&e)) == e);
+        Some(ra::mix_columns(&ra::inv_mix_columns(&e)) == e)
     }
 }
 fn blocks8(inp: &[u8], off: usize) -> ([[u8; 16]; 8], hz::Block8) {
